@@ -113,6 +113,14 @@ LAYERS = {
         {"name": "B", "request": rq(C("sid", 0x22), PC("did", 0x11)),
          "pos": [rq(C("sid", 0x62), PC("pc", 3), V("c"))]},
     ]},
+    # the first request byte is made of two 4-bit constants; a third nibble constant follows
+    "sid-nibbles": {"services": [
+        {"name": "A", "request": rq(C("hi", 0xB, 4, bitpos=4), C("lo", 0x5, 4, bytepos=0), V("x")),
+         "pos": [rq(C("hi", 0xF, 4, bitpos=4), C("lo", 0x5, 4, bytepos=0), V("y"))]},
+        {"name": "B", "request": rq(C("hi", 0xB, 4, bitpos=4), C("lo", 0x6, 4, bytepos=0),
+                                    C("sub", 0x2, 4, bitpos=4, bytepos=1), V("z", 4, bytepos=1)),
+         "pos": [rq(C("sid", 0xF6), V("w"))]},
+    ]},
     "sid-16-bit": {"services": [
         {"name": "A", "request": rq(C("sid", 0x2201, 16), V("x"))},
         {"name": "B", "request": rq(C("sid", 0x22, 8), C("did", 0x02, 8), V("y"))},
@@ -123,34 +131,58 @@ LAYERS = {
 # ---------------------------------------------------------------------------
 # reference matcher
 # ---------------------------------------------------------------------------
-def prefix_of(params, request_prefix=b""):
+def _bits(p):
+    k = p["kind"]
+    return {"const": lambda: p["type"]["bl"], "value": lambda: p["dop"]["bl"],
+            "physconst": lambda: p["dop"]["bl"], "matchreq": lambda: 8 * p["len"],
+            "nrcconst": lambda: 8}[k]()
+
+
+def _layout(params):
+    """[(parameter, byte position, bit position, number of bytes)]: a parameter without explicit
+    byte position starts at the byte after its predecessor"""
     out = []
+    cur = 0
     for p in params:
-        if p["kind"] == "const":
-            out += list(int(p["value"]).to_bytes(p["type"]["bl"] // 8, "big"))
-        elif p["kind"] == "physconst":
-            out += list(int(p["value"]).to_bytes(p["dop"]["bl"] // 8, "big"))
+        pos = p["bytepos"] if p.get("bytepos") is not None else cur
+        bp = p.get("bitpos") or 0
+        n = (bp + _bits(p) + 7) // 8
+        out.append((p, pos, bp, n))
+        cur = pos + n
+    return out
+
+
+def prefix_of(params, request_prefix=b""):
+    """the constant bytes in front of the first byte that is not fully constant"""
+    known = {}  # byte position -> [value, mask of constant bits]
+    end = 0
+    for p, pos, bp, n in _layout(params):
+        if p["kind"] in ("const", "physconst"):
+            raw = int(p["value"]) << bp
+            mask = ((1 << _bits(p)) - 1) << bp
+            for i in range(n):
+                sh = 8 * (n - 1 - i)
+                ent = known.setdefault(pos + i, [0, 0])
+                ent[0] |= (raw >> sh) & 0xFF
+                ent[1] |= (mask >> sh) & 0xFF
         elif p["kind"] == "matchreq" and p["rqpos"] < len(request_prefix):
             if len(request_prefix) < p["rqpos"] + p["len"]:
                 break
-            out += list(request_prefix[p["rqpos"]:p["rqpos"] + p["len"]])
+            for i in range(n):
+                known[pos + i] = [request_prefix[p["rqpos"] + i], 0xFF]
         else:
             break
+        end = max(end, pos + n)
+    out = []
+    for i in range(end):
+        if i not in known or known[i][1] != 0xFF:
+            break
+        out.append(known[i][0])
     return bytes(out)
 
 
 def obj_len(params):
-    n = 0
-    for p in params:
-        if p["kind"] == "const":
-            n += p["type"]["bl"] // 8
-        elif p["kind"] in ("value", "physconst"):
-            n += p["dop"]["bl"] // 8
-        elif p["kind"] == "matchreq":
-            n += p["len"]
-        elif p["kind"] == "nrcconst":
-            n += 1
-    return n
+    return max([pos + n for _, pos, _, n in _layout(params)] or [0])
 
 
 def obj_matches(params, M, request_prefix):
@@ -160,11 +192,8 @@ def obj_matches(params, M, request_prefix):
         return False, None
     conds = [M[:len(pre)] == pre] if pre else []
     vals = {}
-    pos = 0
-    for p in params:
+    for p, pos, bp, n in _layout(params):
         k = p["kind"]
-        n = {"const": lambda: p["type"]["bl"] // 8, "value": lambda: p["dop"]["bl"] // 8,
-             "physconst": lambda: p["dop"]["bl"] // 8, "matchreq": lambda: p["len"], "nrcconst": lambda: 1}[k]()
         v = 0
         for i in range(n):
             v = (v << 8) | M[pos + i]
@@ -173,10 +202,13 @@ def obj_matches(params, M, request_prefix):
             v = 0
             for i in reversed(range(n)):
                 v = (v << 8) | M[pos + i]
+        elif bp or _bits(p) % 8:
+            v = (v >> bp) & ((1 << _bits(p)) - 1)
         vals[p["name"]] = v
         if k == "nrcconst":
             conds.append(s_or(*[v == x for x in p["values"]]))
-        pos += n
+        # constant bits outside the whole-byte prefix are not a condition: the library's decoder only
+        # warns about a coded constant that differs (stated assumption, as for constants behind values)
     return s_and(*conds) if conds else True, vals
 
 
@@ -285,6 +317,10 @@ def run_decode(sx, cfg, env):
         sx.observe("reported", "DecodeError")
         sx.require(len(want) == 0, "decode-error-only-if-nothing-matches")
         return
+    except Exception as e:  # noqa: BLE001  "raises a decode error only if there is none": no other
+        sx.observe("exception", type(e).__name__)  # exception class may leave the layer
+        sx.fail("only-the-decode-error-leaves-the-layer")
+        return
     sx.cover("decoded")
     _compare(sx, got, want)
 
@@ -307,6 +343,10 @@ def run_own(sx, cfg, env):
             got = layer.decode(core.frozen(pdu))
     except DecodeError:
         sx.fail("own-request-attributed-to-its-service")
+        return
+    except Exception as e:  # noqa: BLE001  "raises a decode error only if there is none": no other
+        sx.observe("exception", type(e).__name__)  # exception class may leave the layer
+        sx.fail("only-the-decode-error-leaves-the-layer")
         return
     mine = [m for m in got if m.service.short_name == sv["name"]
             and m.coding_object.short_name == sv["name"] + "_rq"]
@@ -346,6 +386,10 @@ def run_response(sx, cfg, env):
             got = layer.decode_response(resp, req)
     except DecodeError:
         sx.fail("response-found-through-its-request")
+        return
+    except Exception as e:  # noqa: BLE001  "raises a decode error only if there is none": no other
+        sx.observe("exception", type(e).__name__)  # exception class may leave the layer
+        sx.fail("only-the-decode-error-leaves-the-layer")
         return
     mine = [m for m in got if m.service.short_name == sv["name"]
             and m.coding_object.short_name == sv["name"] + "_pr0"]
@@ -393,6 +437,10 @@ def run_response_any(sx, cfg, env):
     except DecodeError:
         sx.cover("decode-error")
         sx.require(len(want) == 0, "decode-error-only-if-nothing-matches")
+        return
+    except Exception as e:  # noqa: BLE001  "raises a decode error only if there is none": no other
+        sx.observe("exception", type(e).__name__)  # exception class may leave the layer
+        sx.fail("only-the-decode-error-leaves-the-layer")
         return
     sx.cover("decoded")
     _compare(sx, got, want)
